@@ -4,7 +4,7 @@
 From Coq Require Import ZArith List Bool Lia Ring.
 From IBL.lib Require Import PyInt.
 From IBL.C17 Require Import Model Proofs Object ObjectProofs.
-From IBL.C17 Require FloatCeil.
+From IBL.C17 Require FloatCeil HannRamp.
 Import ListNotations.
 Open Scope Z_scope.
 
@@ -224,6 +224,24 @@ Theorem C17_float64_ceil_div_exact : forall a b, 0 < a < 2 ^ 53 -> 0 < b < 2 ^ 5
 Proof. exact FloatCeil.float64_ceil_div_exact. Qed.
 Print Assumptions C17_float64_ceil_div_exact.
 
+(* The Hann ramp of the source, w[j] = 1/2 - 1/2 cos(2 pi (j+1) / (2 overlap + 2)), satisfies the hypothesis of
+   C17_splicing_sums_to_one as an identity of real numbers, so over R the splicing amplitudes of
+   firstlast_splicing sum to one with no hypothesis on the ramp.  (Classical reals.) *)
+Theorem C17_splicing_hann_sums_to_one : forall ns nswin ov l i,
+  1 <= ns -> 0 <= ov < nswin -> 2 * ov <= nswin ->
+  firstlast ns nswin ov = Some l -> 0 <= i < ns ->
+  spliced_sum ns ov Rdefinitions.R (Rdefinitions.IZR 0) (Rdefinitions.IZR 1) Rdefinitions.Rplus
+              (HannRamp.hann_ramp ov) l i = Rdefinitions.IZR 1.
+Proof. exact HannRamp.splicing_hann_sums_to_one. Qed.
+Print Assumptions C17_splicing_hann_sums_to_one.
+
+(* The domain hypothesis overlap < nswin is necessary: otherwise (signal longer than the window) the loop of the
+   source never terminates. *)
+Theorem C17_overlap_ge_window_diverges : forall ns nswin ov,
+  nswin <= ov -> nswin < ns -> firstlast ns nswin ov = None.
+Proof. exact firstlast_diverges. Qed.
+Print Assumptions C17_overlap_ge_window_diverges.
+
 (* Non-vacuity: concrete triples meeting the hypotheses, with the model's values. *)
 Example C17_example_short_last :
   firstlast 13 10 4 = Some [(0, 10); (6, 13)] /\ nwin 13 10 4 = 2 /\
@@ -246,3 +264,52 @@ Example C17_example_interleaved :
      (OSplice 6 13 [0;1;2;3;-1;-1;-1], mkobj (Some 3) 2);
      (OStop, mkobj (Some 3) 2)].
 Proof. vm_compute. reflexivity. Qed.
+
+(* --- the hypotheses of every theorem above are satisfiable on non-trivial inputs --- *)
+
+(* C17_splicing_sums_to_one: the ring Z, the ramp [5; 2; -1; -4] (w[j] + w[3-j] = 1), (13, 10, 4) *)
+Definition ex_ramp (j : Z) : Z := if j =? 0 then 5 else if j =? 1 then 2 else if j =? 2 then -1 else -4.
+Example C17_example_splicing_hypotheses :
+  (forall j, 0 <= j < 4 -> ex_ramp j + ex_ramp (4 - 1 - j) = 1) /\
+  1 <= 13 /\ 0 <= 4 < 10 /\ 2 * 4 <= 10 /\
+  forallb (fun i => spliced_sum 13 4 Z 0 1 Z.add ex_ramp [(0, 10); (6, 13)] i =? 1) (zrange 13) = true.
+Proof.
+  split; [|repeat split; try lia; vm_compute; reflexivity].
+  intros j Hj. assert (H : j = 0 \/ j = 1 \/ j = 2 \/ j = 3) by lia.
+  destruct H as [-> | [-> | [-> | ->]]]; reflexivity.
+Qed.
+
+(* C17_valid_partition / C17_windows_structure / C17_windows_cover: (400, 64, 32), 12 windows, a full last window *)
+Example C17_example_valid_hypotheses :
+  1 <= 400 /\ 0 <= 32 < 64 /\ 32 mod 2 = 0 /\ nwin 400 64 32 = 12 /\
+  option_map (@length _) (firstlast_valid 400 64 32) = Some 12%nat /\
+  option_map (fun l => nth 11 l (0, 0, 0, 0)) (firstlast_valid 400 64 32) = Some (352, 400, 368, 400).
+Proof. vm_compute. repeat split; try discriminate; reflexivity. Qed.
+
+(* C17_exhausted_view_yields_generator_list / C17_views_interleaving_independent:
+   zip(firstlast_valid, firstlast_splicing) on (13, 10, 4), three rounds; both views exhausted *)
+Example C17_example_exhausted_hypotheses :
+  let evs := [ENext 0; ENext 1; ENext 0; ENext 1; ENext 0; ENext 1]%nat in
+  firstlast 13 10 4 = Some [(0, 10); (6, 13)] /\ nth_error [KValid; KSplicing] 0 = Some KValid /\
+  asserts 4 KValid = false /\ (2 <= count_next 0 evs)%nat /\
+  outs_of 0 evs (snd (run_schedule 13 10 4 [KValid; KSplicing] evs)) =
+    [OValid 0 10 0 8; OValid 6 13 8 13; OStop].
+Proof. vm_compute. repeat split; try lia. Qed.
+
+(* C17_iw_tracks_lone_view: something else first (a slice view and a tscale()), then a valid view alone *)
+Example C17_example_lone_view_hypotheses :
+  let evs0 := [ENext 0; ETscale]%nat in
+  nth_error [KSlice; KValid] 1 = Some KValid /\ asserts 2 KValid = false /\ count_next 1 evs0 = 0%nat /\
+  map (fun n => o_iw (fst (fst (run_schedule 30 10 2 [KSlice; KValid] (evs0 ++ repeat (ENext 1%nat) n)))))
+      [1; 2; 3; 4; 5]%nat = [Some 0; Some 1; Some 2; Some 3; Some 3] /\ nwin 30 10 2 = 4.
+Proof. vm_compute. repeat split. Qed.
+
+(* C17_nwin_float64_exact / C17_float64_ceil_div_exact: the spike-sorting default (65536, 1024) on 300000 samples *)
+Example C17_example_float_hypotheses :
+  Z.abs (300000 - 65536) < 2 ^ 53 /\ 0 < 65536 - 1024 < 2 ^ 53 /\ nwin 300000 65536 1024 = 5.
+Proof. vm_compute. repeat split; try discriminate; reflexivity. Qed.
+
+(* C17_overlap_ge_window_diverges / C17_short_signal_single_window *)
+Example C17_example_domain_edges :
+  firstlast 1000 300 576 = None /\ firstlast 200 300 576 = Some [(0, 200)] /\ firstlast 5 20 15 = Some [(0, 5)].
+Proof. vm_compute. repeat split. Qed.
